@@ -28,10 +28,10 @@ import (
 )
 
 type vfTree struct {
-	T    int      `json:"t"`
-	V    []int    `json:"v"`
-	Kids []vfTree `json:"kids"`
-	G    bool     `json:"g"` // grouped IE
+	T    int             `json:"t"`
+	V    []int           `json:"v"`
+	Kids []vfTree        `json:"kids"`
+	G    bool            `json:"g"`              // grouped IE
 	Rule json.RawMessage `json:"rule,omitempty"` // SDF filter: the abstract rule its text was rendered from
 }
 
@@ -58,9 +58,9 @@ type vfRuleStep struct {
 }
 
 type vfRuleIn struct {
-	ID    string       `json:"id"`
-	SEID  string       `json:"seid"`
-	Steps []vfRuleStep `json:"steps"`
+	ID    string          `json:"id"`
+	SEID  string          `json:"seid"`
+	Steps []vfRuleStep    `json:"steps"`
 	Meta  json.RawMessage `json:"meta"`
 }
 
@@ -145,7 +145,7 @@ const vfMarkerPeriod = 87654 * time.Hour
 
 type vfNullHandler struct{}
 
-func (vfNullHandler) NotifySessReport(report.SessReport)          {}
+func (vfNullHandler) NotifySessReport(report.SessReport)      {}
 func (vfNullHandler) PopBufPkt(uint64, uint16) ([]byte, bool) { return nil, false }
 
 func vfNewStack() (*vfStack, error) {
